@@ -97,6 +97,10 @@ func (in *inst) Body() {
 		if g, ok := ev.(interface{ GetID() int }); ok {
 			id = g.GetID()
 		}
+		// a scheduling point on entry: whatever the bus did just before calling the panic
+		// handler (counting the delivery as finished, say) can be followed by another task
+		// before the report is made
+		vrt.Point()
 		// recorded through the norace recorder: async handlers call this from tasks
 		in.rec.Add("panic", id, 0, ht.String()+"|"+fmt.Sprint(val))
 	}
@@ -239,6 +243,16 @@ func (in *inst) Check(res *vrt.Result) []vrt.Violation {
 			p := h.Index(evs, "enter", i, id)
 			if p < 0 || p > wret {
 				bad("wait", fmt.Sprintf("Wait returned before an async %s handler had run", kinds[hs.Kind].name))
+			}
+		}
+	}
+	// ... and after their panics had been reported: a delivery that panicked is not over
+	// until the panic handler has been called for it
+	if a.PanicHandler != 0 {
+		for i, e := range evs {
+			if e.K == "panic" && i > wret && (e.A == pubIDs[0] || e.A == pubIDs[1]) {
+				bad("wait", "Wait returned before the panic of an async handler, for an event published before Wait was called, had been reported to the panic handler")
+				break
 			}
 		}
 	}
